@@ -353,6 +353,10 @@ class WorldJob(object):
             last = k == len(visits) - 1
             res = self.model.visit(content, self.kw, force)
             self.stats['visits'] += 1
+            if mode == 'output' and res[0] != 'fail' and self.output_problem(pre, out_rel):
+                # the result cannot be written (missing directory, the path is a directory): the command fails there
+                res = ('fail', 'unwritable-output')
+                self.probe('unwritable_output')
             if res[0] == 'either':
                 # equal size: the command may emit either; follow what it actually did
                 if mode == 'stdout':
@@ -565,6 +569,19 @@ class WorldJob(object):
         info['exit'] = rec['exit']
         info['inflight'] = inflight
         return info
+
+    def output_problem(self, pre, out_rel):
+        if out_rel is None:
+            return False
+        if out_rel in pre and pre[out_rel][0] == 'd':
+            return True
+        if out_rel == '':
+            return True
+        parent = out_rel.rsplit('/', 1)[0] if '/' in out_rel else ''
+        if parent and (parent not in pre or pre[parent][0] == 'f'):
+            # a link as parent: resolved already by realpath, so `parent` is a real entry or missing
+            return parent not in pre or pre[parent][0] != 'd'
+        return False
 
     def alt_search(self, pre_f, rel, got, visits, mode, force, out_rel):
         """Is `got` a complete minified module of the visited input under some other option set?"""
